@@ -20,6 +20,7 @@ pub fn run(id: &str) -> Result<String, String> {
         "F28" => f28(),
         "F29" => f29(),
         "F30" => f30(),
+        "F32" => f32_(),
         _ => Err(format!("unknown witness {id}")),
     }
 }
@@ -494,4 +495,55 @@ pub fn child(name: &str) {
         }
         _ => std::process::exit(2),
     }
+}
+
+/// F32: the RecordBuf decoder of bcf (Reader::read_record_buf) must report reserved codes, mismatching types and empty
+/// character values as errors; it hit todo!()/expect()/unwrap().
+fn f32_() -> Result<String, String> {
+    let header_text = "##fileformat=VCFv4.4\n##FILTER=<ID=PASS,Description=\"All filters passed\">\n##INFO=<ID=AC,Number=A,Type=Integer,Description=\"\">\n##INFO=<ID=AF,Number=A,Type=Float,Description=\"\">\n##FORMAT=<ID=GT,Number=1,Type=String,Description=\"\">\n##FORMAT=<ID=DP,Number=1,Type=Integer,Description=\"\">\n##FORMAT=<ID=AD,Number=R,Type=Integer,Description=\"\">\n##FORMAT=<ID=CH,Number=1,Type=Character,Description=\"\">\n##FORMAT=<ID=CA,Number=.,Type=Character,Description=\"\">\n##FORMAT=<ID=FL,Number=1,Type=Float,Description=\"\">\n##contig=<ID=sq0>\n#CHROM\tPOS\tID\tREF\tALT\tQUAL\tFILTER\tINFO\tFORMAT\ts0\n";
+    let mut header: noodles_vcf::Header = header_text.parse().map_err(|e| format!("header: {e}"))?;
+    *header.string_maps_mut() = noodles_vcf::header::StringMaps::try_from(&header).map_err(|e| format!("string maps: {e}"))?;
+    let idx = |name: &str| header.string_maps().strings().get_index_of(name).unwrap() as u8;
+    let (gt, dp, ad, ch, ca, fl, ac, af) = (idx("GT"), idx("DP"), idx("AD"), idx("CH"), idx("CA"), idx("FL"), idx("AC"), idx("AF"));
+    let site = |n_info: u16, info: &[u8], n_fmt: u8| -> Vec<u8> {
+        let mut v = vec![0u8; 24];
+        v[8] = 1; v[12..16].copy_from_slice(&[0x01, 0x00, 0x80, 0x7f]);
+        v[16..18].copy_from_slice(&n_info.to_le_bytes());
+        v[18..20].copy_from_slice(&1u16.to_le_bytes());
+        v[20] = if n_fmt > 0 { 1 } else { 0 }; v[23] = n_fmt;
+        v.extend([0x07, 0x17, b'N', 0x00]); v.extend(info); v
+    };
+    let rec = |s: Vec<u8>, samples: Vec<u8>| -> Vec<u8> { let mut d = (s.len() as u32).to_le_bytes().to_vec(); d.extend((samples.len() as u32).to_le_bytes()); d.extend(s); d.extend(samples); d };
+    let fmt = |samples: Vec<u8>| rec(site(0, &[], 1), samples);
+    let cases: Vec<(&str, Vec<u8>)> = vec![
+        ("a Number=1 Integer series holding a reserved Int8 code", fmt(vec![0x11, dp, 0x11, 0x83])),
+        ("a Number=1 Integer series holding the Int8 end-of-vector code", fmt(vec![0x11, dp, 0x11, 0x81])),
+        ("a Number=1 Integer series holding a reserved Int16 code", fmt(vec![0x11, dp, 0x12, 0x03, 0x80])),
+        ("a Number=1 Integer series holding a reserved Int32 code", fmt(vec![0x11, dp, 0x13, 0x03, 0x00, 0x00, 0x80])),
+        ("a Number=1 Float series holding a reserved NaN", fmt(vec![0x11, fl, 0x15, 0x03, 0x00, 0x80, 0x7f])),
+        ("a Number=R Integer series with a reserved Int8 code in the vector", fmt(vec![0x11, ad, 0x21, 0x05, 0x84])),
+        ("a Number=R Integer series with a reserved Int16 code in the vector", fmt(vec![0x11, ad, 0x22, 0x05, 0x00, 0x04, 0x80])),
+        ("a FORMAT series whose type descriptor is 0x00", fmt(vec![0x11, dp, 0x00])),
+        ("an Integer series stored as String", fmt(vec![0x11, dp, 0x17, b'x'])),
+        ("a GT series stored as Int16", fmt(vec![0x11, gt, 0x12, 0x02, 0x00])),
+        ("a Character series of length 0", fmt(vec![0x11, ch, 0x07])),
+        ("a Character series starting with NUL", fmt(vec![0x11, ch, 0x17, 0x00])),
+        ("a Character array series with an empty element", fmt(vec![0x11, ca, 0x37, b'a', b',', b','])),
+        ("an INFO Integer vector containing the Int8 end-of-vector code", rec(site(1, &[0x11, ac, 0x21, 0x05, 0x81], 0), vec![])),
+        ("an INFO Integer vector containing a reserved Int16 code", rec(site(1, &[0x11, ac, 0x22, 0x05, 0x00, 0x03, 0x80], 0), vec![])),
+        ("an INFO Float vector containing the end-of-vector NaN", rec(site(1, &[0x11, af, 0x25, 0, 0, 0, 0, 0x02, 0x00, 0x80, 0x7f], 0), vec![])),
+    ];
+    let n = cases.len();
+    let mut bad: Vec<&str> = Vec::new();
+    for (what, data) in cases {
+        let h = header.clone();
+        let r = std::panic::catch_unwind(move || {
+            let mut reader = noodles_bcf::io::Reader::from(&data[..]);
+            let mut record = noodles_vcf::variant::RecordBuf::default();
+            let _ = reader.read_record_buf(&h, &mut record);
+        });
+        if r.is_err() { bad.push(what); }
+    }
+    if !bad.is_empty() { return Err(format!("bcf Reader::read_record_buf PANICS on a record with: {}", bad.join("; "))); }
+    Ok(format!("\"cases\":{n}"))
 }
